@@ -869,6 +869,112 @@ def mdcpdp_mask_classes(ctx: Ctx, env: EnvA, direction: str = "looser"):
                    construct=f"MDCPDPEnv._step:mask-class:{cls}:hidden")
 
 
+CLOCK = {  # env -> (service-time cell, window cell)
+    "CVRPTWEnv": ("durations", "time_windows"),
+    "MTVRPEnv": ("service_time", "time_windows"),
+}
+
+
+def clock_update(ctx: Ctx, env: EnvA):
+    """C01.t the vehicle's clock after serving customer a:  (a != depot) * ( max(clock + travel, window_start[a]) + service[a] ).
+    Service starts when the vehicle has arrived AND the window is open, and lasts `service[a]` from then on: the service
+    time is added to the maximum, it is not an operand of it (max(arrival + service, start) loses the service time whenever
+    the vehicle waits, and the mask then admits customers that are reached after their deadline)."""
+    if env.name not in CLOCK:
+        return
+    svc, win = CLOCK[env.name]
+    sl = env.slot("_step")
+    ct = sl.cell("current_time")
+    p = nf.poly(ct)
+    ok, why = False, f"current_time' = {p.show(3)[:200]}"
+    mons = list(p.terms.items())
+    if len(mons) == 2 and all(c == 1 for _, c in mons):
+        parts = []
+        gates = []
+        for m, _c in mons:
+            atoms = [nf.Poly.ATOMS[a] for a, pw in m if pw == 1]
+            g = [a for a in atoms if nf.cmpnf(a) is not None and "action" in vg.cells_of(a)]
+            rest = [a for a in atoms if a not in g]
+            if len(g) == 1 and len(rest) == 1 and len(atoms) == len(m):
+                gates.append(g[0])
+                parts.append(rest[0])
+        if len(parts) == 2 and gates[0] is gates[1]:
+            mx = [a for a in parts if nf._fn(a) in ("torch.max", "torch.maximum") or (a.op == "meth" and a.args[1] == "maximum")]
+            sv = [a for a in parts if a not in mx]
+            if len(mx) == 1 and len(sv) == 1:
+                ops_ = [x for x in (mx[0].args[1:] if mx[0].op == "call" else [mx[0].args[0]] + list(mx[0].args[2:])) if isinstance(x, vg.S) and x.op != "kw"]
+                sv_ok = vg.cells_of(sv[0]) == {svc, "action"}
+                arr = [x for x in ops_ if "current_time" in vg.cells_of(x)]
+                st_ = [x for x in ops_ if win in vg.cells_of(x) and "current_time" not in vg.cells_of(x)]
+                arr_ok = len(arr) == 1 and svc not in vg.cells_of(arr[0]) and win not in vg.cells_of(arr[0])
+                st_ok = len(st_) == 1 and vg.cells_of(st_[0]) == {win, "action"}
+                gate_ok = nf.cmpnf(gates[0])[1] == "!=0"
+                ok = len(ops_) == 2 and sv_ok and arr_ok and st_ok and gate_ok
+                why = (f"(a != 0: {gate_ok}) * (max(arrival: {arr_ok}, window start: {st_ok}) + service time outside the max: {sv_ok})")
+    ctx.ob("C01.t", f"{env.name}._step:clock", ok, sl.where, why, construct=f"{env.name}._step:clock-formula")
+
+
+def open_route_gating(ctx: Ctx, env: EnvA, sl, root):
+    """C01.v MTVRP distance limit: an open route saves the way BACK to the depot only.  In the limit test the leg from the
+    current node to the candidate is always charged (its monomial carries no open_route factor) and the leg candidate -> depot
+    is charged exactly when the route is closed (every monomial with that leg carries the `~open_route` factor)."""
+    lits = [l for l in nf.boolwalk(root, T.BOOL_CELLS) if l.cmp() is not None and "distance_limit" in vg.cells_of(l.node)]
+    if not lits:
+        raise AnalysisError("MTVRPEnv.get_action_mask: distance-limit comparison not found")
+    bad, n_out, n_ret = [], 0, 0
+    for l in lits:
+        P = l.cmp()[0]
+        for m, c in P.terms.items():
+            atoms = [nf.Poly.ATOMS[a] for a, _pw in m]
+            legs = [a for a in atoms if nf._fn(a) in nf.DIST_FN or (a.op == "meth" and a.args[1] == "norm")]
+            gate = [a for a in atoms if "open_route" in vg.cells_of(a) and a not in legs]
+            for leg in legs:
+                out = "current_node" in vg.cells_of(leg)
+                if out:
+                    n_out += 1
+                    if gate:
+                        bad.append(f"the leg current -> candidate is multiplied by {vg.show(gate[0], 2)}: on open routes it is not charged")
+                else:
+                    n_ret += 1
+                    neg = [g for g in gate if g.op in ("inv", "not") or (nf.cmpnf(g) is not None)]
+                    if not gate:
+                        bad.append("the leg candidate -> depot is charged on open routes too")
+                    elif not neg:
+                        bad.append(f"the leg candidate -> depot is gated by {vg.show(gate[0], 2)} instead of its negation")
+    ok = not bad and n_out >= 1 and n_ret >= 1
+    ctx.ob("C01.v", "MTVRPEnv.mask:distance-limit:open-route-gating", ok, sl.where,
+           f"{n_out} outgoing-leg term(s) ungated, {n_ret} return-leg term(s) gated by ~open_route" if ok else ("; ".join(bad[:2]) or "legs of the limit test not identified"),
+           construct="MTVRPEnv.get_action_mask:distance-limit:gating")
+
+
+CONFIGURED = {  # env -> {state cell written by _reset: documented generator parameter it must carry}
+    "PCTSPEnv": {"prize_required": "prize_required"},
+    "SPCTSPEnv": {"prize_required": "prize_required"},
+}
+
+
+def configured_requirements(ctx: Ctx, env: EnvA):
+    """C01.w a requirement that is a documented generator parameter reaches the state as configured: the cell `_reset` writes
+    is built from `self.generator.<parameter>` (or taken from the instance), not from a literal."""
+    for cell, attr in CONFIGURED.get(env.name, {}).items():
+        rs = env.slot("_reset")
+        v = rs.cell(cell)
+        if v is None:
+            raise AnalysisError(f"{env.name}._reset does not write {cell}")
+        attrs = set()
+        for n in vg.walk(v):
+            if n.op == "selfattr":
+                attrs.add(n.args[0])
+            if n.op == "attr" and vg.show(n, 3).startswith("self.generator."):
+                attrs.add("generator." + n.args[1])
+        from_inst = cell in vg.cells_of(v)
+        ok = from_inst or any(a.split(".")[-1] == attr and "generator" in a for a in attrs)
+        ctx.ob("C01.w", f"{env.name}._reset:{cell}", ok, rs.where,
+               f"{cell} = {vg.show(v, 3)[:120]}: carries self.generator.{attr}: {ok}" if ok else
+               f"{cell} = {vg.show(v, 3)[:120]}: a literal, the configured generator parameter `{attr}` never reaches the mask / checker that read td['{cell}']",
+               construct=f"{env.name}._reset:configured:{cell}")
+
+
 def svrp_last_technician(ctx: Ctx, env: EnvA, sl, root):
     """C01.s SVRP: the depot is closed while customers remain if the vehicle is at the depot OR the current technician is the
     last one (index n_tech - 1, n_tech = techs.size(-2)): returning would advance `current_tech` past the last technician."""
@@ -919,8 +1025,12 @@ def run(ctx: Ctx):
         rule_m(ctx, env)
         rule_n(ctx, env)
         mdcpdp_mask_classes(ctx, env)
+        clock_update(ctx, env)
+        configured_requirements(ctx, env)
         if cname == "SVRPEnv":
             svrp_last_technician(ctx, env, sl, root)
+        if cname == "MTVRPEnv":
+            open_route_gating(ctx, env, sl, root)
         if cname == "MTVRPEnv":
             # C01.u: the only env with a vehicle speed: clocks, windows and service times are times, legs and limits are lengths
             from .. import units
